@@ -41,6 +41,7 @@ GNext ==
           \/ RecvEmpty(t) /\ Rec(t, "RecvEmpty", op[t])
           \/ RecvAck(t) /\ Rec(t, "RecvAck", op[t])
           \/ RecvEmit(t) /\ Rec(t, "RecvEmit", op[t])
+          \/ CombineLocked(t) /\ Rec(t, "CombineLocked", op[t])
           \/ CloseLocked(t) /\ Rec(t, "CloseLocked", op[t])
           \/ ShutRead(t) /\ Rec(t, "ShutRead", op[t])
           \/ ShutLocked(t) /\ Rec(t, "ShutLocked", op[t])
